@@ -39,20 +39,20 @@ def _make_env(n, explicit):
 
 def _clauses(n, explicit):
     combos = [bin(x)[2:].rjust(n, "0") for x in range(2 ** n)]
-    ens = [("C12.empty_combination_has_no_effect", "self._combination_outcomes[0] == 0")]
+    ens = [("C12+C13.empty_combination_has_no_effect", "self._combination_outcomes[0] == 0")]
     # the cached programs are a permutation of the programs, in order of decreasing distance from baseline
-    ens.append(("C12.cache_holds_every_program_once", "sorted(self._cached_progs.keys()) == sorted(names)"))
+    ens.append(("C12+C13.cache_holds_every_program_once", "sorted(self._cached_progs.keys()) == sorted(names)"))
     if n >= 2:
         # (the additive and nested interactions fill coverage in this order: the strongest program first)
-        ens.append(("C12.programs_are_cached_in_order_of_decreasing_distance_from_baseline", " and ".join("abs(self._deltas[%d]) >= abs(self._deltas[%d])" % (i, i + 1) for i in range(n - 1))))
-    ens.append(("C12.cached_delta_is_outcome_minus_baseline",
+        ens.append(("C12+C13.programs_are_cached_in_order_of_decreasing_distance_from_baseline", " and ".join("abs(self._deltas[%d]) >= abs(self._deltas[%d])" % (i, i + 1) for i in range(n - 1))))
+    ens.append(("C12+C13.cached_delta_is_outcome_minus_baseline",
                 " and ".join("self._deltas[%d] == self._cached_progs[list(self._cached_progs.keys())[%d]] - self.baseline" % (i, i) for i in range(n))))
-    ens.append(("C12.cached_values_are_the_program_outcomes",
+    ens.append(("C12+C13.cached_values_are_the_program_outcomes",
                 " and ".join("self._cached_progs[names[%d]] == outs[%d]" % (i, i) for i in range(n))))
     for c in range(1, 2 ** n):
         members = [i for i in range(n) if combos[c][i] == "1"]
         if explicit and len(members) == n:
-            ens.append(("C12.explicit_interaction_outcome_is_used", "self._combination_outcomes[%d] == inter[frozenset(names)]" % c))
+            ens.append(("C12+C13.explicit_interaction_outcome_is_used", "self._combination_outcomes[%d] == inter[frozenset(names)]" % c))
             continue
         ens.append(("C12+C13.combination_%s_takes_the_member_farthest_from_baseline" % combos[c],
                     "(" + " or ".join("self._combination_outcomes[%d] == self._deltas[%d]" % (c, i) for i in members) + ") and " +
